@@ -249,6 +249,15 @@ def check(pid, tier, nruns, procs, seed):
             log('HARNESS-ERROR property=%s: determinism recheck failed for runs %s' % (pid, det['mismatch_runs']))
             exit_code = 2
 
+    fid = None
+    ncases = getattr(mod, 'FIDELITY_CASES', {}).get(tier, 0)
+    if ncases and exit_code != 2:
+        import fidelity
+        frc, fid = fidelity.run(ncases, seed, verbose=False)
+        if frc != 0:
+            log('HARNESS-ERROR property=%s: the pool model disagrees with the real multiprocessing pool' % pid)
+            exit_code = 2
+
     wall_total = time.time() - t_start
     samples = [{'run': r['i'], 'description': r.get('sample'), 'choices': r.get('choices'),
                 'event_log_digest': r['digest'], 'coverage_signature': r['cov']}
@@ -260,7 +269,8 @@ def check(pid, tier, nruns, procs, seed):
             'distinct_nontrivial': len(covs),
             'rule': mod.RULE,
             'samples': samples or [{'note': 'no sample recorded'}],
-            'traces_validated_against_impl': 0,
+            'traces_validated_against_impl': fid['traces_validated_against_impl'] if fid else 0,
+            'pool_model_fidelity': ({k: v for k, v in fid.items() if k != 'cases'} if fid else None),
             'runs_per_hour': int(n / wall * 3600) if wall > 0 else 0,
             'seeds': 1, 'run_indices': [0, n - 1] if n else [],
             'sim_time_s': round(simtime, 3), 'events': nev,
